@@ -690,6 +690,7 @@ func runC09(w *World, r *Report) {
 	c09ErrorPath(w, r)
 	wholeInputRule(w, r, "C09")
 	errorsNotDiscarded(w, r, "C09")
+	c09SiblingIndependence(w, r, "C09")
 	c09CommentDelivery(w, r)
 	fmtCommentEndsLine(w, r, "C09")
 	r.assume("comments are only recoverable through hidden-channel queries at adjacent default-channel tokens (LINE_COMMENT -> channel(HIDDEN))")
@@ -827,6 +828,7 @@ func runC10(w *World, r *Report) {
 	c10SameLineAnchor(w, r, fns)
 	fmtCommentEndsLine(w, r, "C10")
 	c10TokenTextNotCut(w, r, "C10")
+	c09SiblingIndependence(w, r, "C10")
 	// the dsl text itself is not consulted after parsing
 	fmtFn := w.Parser.Func("FormatPacketDsl")
 	if fmtFn == nil {
